@@ -210,6 +210,7 @@ func main() {
 		if *big {
 			var bv []vector
 			if *bigPart != "b" {
+				vecs = append(vecs, lastPairVectors()...)
 				vecs = append(vecs, dictionarySweep(names)...)
 				vecs = append(vecs, liveCollectionBig()...)
 				bv = bigVectors()
